@@ -19,10 +19,22 @@ CHECKS = {
    technique="reference-model monitor: independent scoping model over a generated workflow model vs. the real linter's undefined-property diagnostics",
    text="A seeded generator builds workflows (jobs with needs DAG and outputs, steps with ids, matrices with include/exclude/nesting and expression-valued sections, workflow_call/dispatch inputs, secrets, outputs) and emits one reference per scalar at 47 kinds of position; an independent scope model decides in-scope / out-of-scope / never-reported per reference and is compared with the linter. Floors require every reference class in both directions.",
    note="Compared per scalar (reported or not); classes where the statement is silent are excluded and listed in the evidence assumptions."),
+ "C10": dict(level="exploration", design="§4 C10",
+   technique="Go race detector over multi-file workloads + isolation (alone vs. together) metamorphic monitor with seeded hook delays + table/config fingerprint invariants + file-vs-AST interface comparison",
+   text="Generated layouts (one repo, two repos, prefix-named siblings, nested repositories, loose files, many files) whose workflows depend on their own repository's config, local action and reusable workflow and produce diagnostics built from shared tables. Every file is linted alone, then together in subsets / argument orders under GOMAXPROCS 1/2/4/16 with seeded delays at hook points (check start, cache writes); per-file diagnostics must be equal. Built-in table and shared *Config fingerprints are compared before/after; a third of the cases run in the -race build and every report touching actionlint frames is a violation; both cache-write interleavings must have been observed. Exploration of schedules, not enumeration.",
+   note="Callees are well-formed as the statement requires. The race detector only sees races in executed interleavings. Fingerprints are taken at quiescent points."),
+ "C11": dict(level="exploration", design="§4 C11",
+   technique="reference-model monitor: independent untrusted-path evaluator over model-generated expressions vs. the real linter's untrusted-input diagnostics",
+   text="All 20 untrusted leaves x all type-correct spelling vectors (dot / ['name'] in four letter cases, [0] / [expr] / .* for array segments) x depth-1 embeddings are enumerated; systematic neighbours (trusted siblings, prefixes, extensions) and random deep embeddings (operators, parentheses, index positions, sanitising and non-sanitising calls, 1-4 chains) follow. Each expression is linted at 2 script positions (must report exactly the expected paths) and 9 non-script positions (must not report). Exhaustive at depth 1, sampled deeper.",
+   note="Dynamic string indices, numeric strings as indices and values reaching a property through an operator/call result are outside the compared domain (statement silent)."),
  "C12": dict(level="exploration", design="§4 C12",
    technique="golden-model monitor: independently transcribed availability table x exhaustive position/context/function cross product on the real linter",
    text="120 placeholder position classes (each mapped to its table key or to none) x 12 contexts + 5 special functions x 4 embeddings are linted; a 'not allowed here' diagnostic must appear at the name iff the independently transcribed GitHub table does not list it; the API boundary (WorkflowKeyAvailability, misspelt keys) and random embeddings are checked as well. The cross product is enumerated completely.",
    note="Trusted: the harness' transcription of GitHub's table (34 rows) and the position-class to key map."),
+ "C13": dict(level="exploration", design="§4 C13",
+   technique="mutation monitor driven by an independent section/key table: foreign, repeated and deleted keys on templates and corpus, located-diagnostic and sibling-preservation oracle on the real parser",
+   text="For every mapping of four alternation templates (161 clean/dirty alternations) and of the repository corpus that matches one of 46 section patterns: a foreign key at every position, every key repeated (same spelling and other letter case), every mandatory key deleted. The new diagnostic must be at the predicted key (schedule: the item) and every base diagnostic must survive; clean renderings using every accepted key must stay clean. Complete over sections x mutation kinds on the templates.",
+   note="Block-style mappings only (the parser does not see the style); extra new diagnostics beside the demanded one are counted, not judged."),
  "C14": dict(level="exploration", design="§4 C14",
    technique="reference-model monitor: interface model vs. the real linter over the complete bundled action data set and generated local callees on disk",
    text="All PopularActions and OutdatedPopularActionSpecs entries are enumerated completely (required inputs present/removed, undeclared inputs, letter case, declared/undeclared outputs); generated local actions and reusable workflows (required x default, typed inputs, secrets, inherit, outputs) are written to scratch repositories and called with random subsets/extras/typed values, in both metadata derivations (file and AST). Bundled part exhaustive, local part sampled.",
@@ -35,6 +47,10 @@ CHECKS = {
    technique="reference-model monitor over exhaustively enumerated needs graphs (runtime oracle on the real linter)",
    text="Every digraph on <=4 jobs is rendered to a workflow and linted by the real Linter; all 2^25 graphs on 5 jobs are pushed through the rule's visitor API in the thorough tier. An independent cyclicity decision and a walk validator over the generated edge relation judge every run; dangling and duplicate references and random graphs up to 40 jobs are sampled. Exhaustive up to the bound, sampled above it.",
    note="Trusted: the harness' own graph renderer and cyclicity reference (60 lines). Termination is observed as bounded progress: a case exceeding 90 s CPU when re-run alone is a hang."),
+ "C20": dict(level="fault_enumeration", design="§4 C20",
+   technique="trace monitor with fault enumeration: fake shellcheck/pyflakes tool with planned behaviours, tool-side log, hook event trace of the process pool, reference model of effective shell / sanitised stdin / expected diagnostics or fatal error; also under -race and NumCPU=2",
+   text="Every assignment of 6 tool behaviours (ok, issues, exit!=0 without output, killed, garbage, slow) to k<=4 invocations is enumerated (1554 patterns; all in thorough, a seeded sample in quick) on generated workflows whose shells come from step / job default / workflow default / runner. Checked per run: each eligible script reaches the right tool exactly once with the exact equally-long-placeholder stdin; issues become diagnostics at the run: key; failures become fatal errors; semaphore holders and live processes never exceed NumCPU (16 and, via taskset, 2); nothing of the pool runs after Lint* returned; every started run has ended.",
+   note="Tool-side intervals undercount lifetimes, so the bound cannot false-alarm. pyflakes garbage is ignored by design. strace-level observation is a thorough-tier extension."),
 }
 
 NOT_YET = {}
